@@ -306,3 +306,10 @@ def _names_deep(body, g):
 # sensitivity pack (thorough tier): each seeded edit must be reported by the named rule instance
 MUTANTS = [{'name': 'seeded-C05-a', 'patch': 'C05-a/patch.diff', 'expect': ('R5.3', 'index_utxo_entries', 'per-block row')},
            {'name': 'seeded-C05-b', 'patch': 'C05-b/patch.diff', 'expect': ('R5.5', 'jubilee_height', 'Testnet4')}]
+
+
+# behaviour-preserving pack (thorough tier)
+NEUTRAL = [
+  {'name': 'inscription number: arms swapped under !cursed', 'file': 'src/index/updater/inscription_updater.rs', 'old': '        let inscription_number = if cursed {\n          let number: i32 = self.cursed_inscription_count.try_into().unwrap();\n          self.cursed_inscription_count += 1;\n          -(number + 1)\n        } else {\n          let number: i32 = self.blessed_inscription_count.try_into().unwrap();\n          self.blessed_inscription_count += 1;\n          number\n        };', 'new': '        let inscription_number = if !cursed {\n          let number: i32 = self.blessed_inscription_count.try_into().unwrap();\n          self.blessed_inscription_count += 1;\n          number\n        } else {\n          let number: i32 = self.cursed_inscription_count.try_into().unwrap();\n          self.cursed_inscription_count += 1;\n          -(number + 1)\n        };'},
+  {'name': 'sequence number increment spelled out', 'file': 'src/index/updater/inscription_updater.rs', 'old': '        self.next_sequence_number += 1;\n', 'new': '        self.next_sequence_number = self.next_sequence_number + 1;\n'},
+]
